@@ -19,7 +19,16 @@ open Zutil
 open ColumnModel
 
 let unh s = if String.length s > 0 && s.[0] = 'h' then String.sub s 1 (String.length s - 1) else s
-let hexb s = bytes_of_hex (unh s)
+(* large byte strings recur from case to case (the same ciphertext corrupted in several ways): parse once *)
+let memo : (string, coq_Z list) Hashtbl.t = Hashtbl.create 16
+let hexb s =
+  let h = unh s in
+  if String.length h < 4096 then bytes_of_hex h
+  else match Hashtbl.find_opt memo h with
+    | Some l -> l
+    | None ->
+      if Hashtbl.length memo > 8 then Hashtbl.reset memo;
+      let l = bytes_of_hex h in Hashtbl.replace memo h l; l
 
 (* interning of JSON-typed values: model value = index *)
 let tbl : (string, int) Hashtbl.t = Hashtbl.create 64
@@ -45,7 +54,7 @@ let is_json ty = String.length ty >= 5 && String.sub ty 0 5 = "json:"
 
 let cval_of ty v : coq_Z cval =
   if ty = "str" then VStr (hexb v)
-  else if ty = "bytes" then VBytes (hexb v)
+  else if ty = "bytes" then VBytes (if v = "nil" then [] else hexb v)   (* nil and empty []byte are identified *)
   else if is_json ty then VJson (z_of_int (intern v))
   else VNum (kind_of_string ty, z_of_string v)
 
@@ -88,11 +97,14 @@ let log_of s : log_entry list =
       | [k; n; c; m] -> (((hexb k, hexb n), hexb c), hexb m)
       | _ -> failwith ("log " ^ e)) (split_on ';' s)
 
-let rec take n l = if n <= 0 then [] else match l with [] -> [] | x :: t -> x :: take (n - 1) t
+let take n l =
+  let rec go n l acc = if n <= 0 then List.rev acc else match l with [] -> List.rev acc | x :: t -> go (n - 1) t (x :: acc) in
+  go n l []
 let rec drop n l = if n <= 0 then l else match l with [] -> [] | _ :: t -> drop (n - 1) t
 
 let flag s = if !missing then s ^ " ORACLE-MISSING" else s
 
+let zeros16 = List.init 16 (fun _ -> z_of_int 0)
 let nonce0 = List.init 12 (fun i -> z_of_int (i + 1))
 
 let one pinned line =
@@ -101,7 +113,9 @@ let one pinned line =
   | ["V"; tv; valid; key; nonce; jenc] ->
     let (ty, v) = split_tv tv in
     let c = { coq_val = cval_of ty v; valid = (valid = "1"); ckey = hexb key } in
-    (match value_toy (jenc_of jenc) (hexb nonce) c with
+    (* only framing, plaintext and length are observable here, so a cheap 16-byte tag stands in for the AEAD
+       (toy_tag costs a 128-bit multiplication per byte: too slow for megabyte plaintexts) *)
+    (match value (jenc_of jenc) (fun _ _ m -> List.rev_append (List.rev m) zeros16) (hexb nonce) c with
      | COk stored ->
        let n = List.length stored in
        flag (Printf.sprintf "ok nonce=%s pt=h%s len=%d" (hex_of_bytes (take 12 stored))
